@@ -134,6 +134,11 @@ def execute_here(plan, keep_events=False):
                 continue
             rc = refmodel.RefCode(code)
             faces = z_rows(code)
+            # the decoder gets its OWN code object, which nothing but the
+            # decoder touches: lazily built tables of the code class are
+            # then first built inside the (possibly interrupted) decode
+            dcode = make_code(part['code'], part['size'])
+            part = dict(part, _dcode=dcode)
             if part['kind'] == 'other_object_deformed':
                 try:
                     for nm_ in getattr(code, 'deformation_names', []):
@@ -170,7 +175,7 @@ def execute(plan, **kw):
 
 
 def run_geometry(plan, sim, code, rc, faces, violate, stats):
-    dec = make_decoder(plan['decoder'], code)
+    dec = make_decoder(plan['decoder'], plan.get('_dcode', code))
     m = len(code.stabilizer_coordinates)
     n = rc.n
     face_set = set(faces)
@@ -236,7 +241,8 @@ def run_trajectories(plan, sim, code, rc, faces, violate, stats, states):
         if dec is None or not reuse or (
                 plan.get('new_decoder_each_time') and ei > 0):
             # (the code object is shared by all decodes of the plan)
-            dec = make_decoder(plan['decoder'], code, plan.get('knobs'))
+            dec = make_decoder(plan['decoder'], plan.get('_dcode', code),
+                               plan.get('knobs'))
             drive_tiebreaks(dec, SchedRng(trng, sim))
             real = dec.sweep_move
         elif ei > 0:
@@ -352,7 +358,8 @@ def run_interleaved(plan, sim, code, rc, faces, violate, stats, states):
     from panqec.bpauli import pauli_to_bsf
     n = rc.n
     face_set = set(faces)
-    dec = make_decoder(plan['decoder'], code, plan.get('knobs'))
+    dec = make_decoder(plan['decoder'], plan.get('_dcode', code),
+                       plan.get('knobs'))
     drive_tiebreaks(dec, SchedRng(stream(plan['seed'], 'tiebreak'), sim))
     srng = stream(plan['seed'], 'interleave')
     runs = []
